@@ -44,7 +44,7 @@ try:
         env = dict(os.environ, TWVERIF_REPO=W, TWVERIF_NO_EVIDENCE="1")
         caught = {}
         for cid in [ID] + extra:
-            for tier in ("quick", "thorough"):
+            for tier in (("quick",) if os.environ.get("SEED_QUICK_ONLY") else ("quick", "thorough")):
                 p = subprocess.run(["./check", cid, tier], cwd="/verif", env=env, capture_output=True, text=True)
                 clauses = sorted(set(re.findall(r"clause: (\S+)", p.stdout)))
                 meta["ran"].append({"cmd": "TWVERIF_REPO=<scratch worktree with patch> ./check %s %s" % (cid, tier),
